@@ -250,4 +250,6 @@ def check(ctx):
                                   % (tag, res['back_err']), rel, line)
     rep.count('adjoint_instances', n)
     rep.floor('R1', 'adjoint instances', n, 20)
+    from . import c05b
+    c05b.run(rep, model)
     return rep
